@@ -87,6 +87,34 @@ def determinism(checks, n, tier="quick", seed=0) -> int:
     return 1 if bad else 0
 
 
+def try_diff(cid, diff, runs=None, tier="quick", keep=False, extra_args=()):
+    """Apply one unified diff to a scratch copy of the package (outside /repo and /verif), run the check
+    against it through PYTHONPATH, delete the copy.  Returns a result dict."""
+    scratch = tempfile.mkdtemp(prefix=f"verif-mut-{cid}-", dir="/tmp")
+    try:
+        t0 = time.time()
+        shutil.copytree("/repo/pennylane", os.path.join(scratch, "pennylane"),
+                        ignore=shutil.ignore_patterns("__pycache__"))
+        p = subprocess.run(["patch", "-p1", "-s", "-d", scratch, "-i", diff], capture_output=True, text=True)
+        if p.returncode != 0:
+            return {"caught": False, "error": "patch-failed", "detail": (p.stdout + p.stderr)[-400:]}
+        env = dict(os.environ, PYTHONPATH=scratch, VERIF_NO_EVIDENCE="1",
+                   VERIF_REPLAY_DIR=os.path.join(scratch, "replays"))
+        cmd = [PY, os.path.join(VERIF, "run.py"), cid, "--tier", tier] + list(extra_args)
+        if runs:
+            cmd += ["--runs", str(runs)]
+        r = subprocess.run(cmd, env=env, capture_output=True, text=True, timeout=3600)
+        caught = r.returncode == 1 and "VIOLATION property=" in r.stdout
+        klass = [l for l in r.stdout.splitlines() if l.startswith("violation class=")][:1]
+        return {"caught": caught, "replay_reproduces": "replay_reproduces=True" in r.stdout,
+                "rc": r.returncode, "wall_s": round(time.time() - t0, 1),
+                "first": klass[0][:400] if klass else None,
+                "stderr_tail": None if caught else r.stderr[-400:]}
+    finally:
+        if not keep:
+            shutil.rmtree(scratch, ignore_errors=True)
+
+
 def sensitivity(checks, only=None, keep=False, runs=None) -> int:
     """Apply each mutant to a scratch copy of the package and expect the quick tier to fail."""
     results = {}
@@ -96,37 +124,13 @@ def sensitivity(checks, only=None, keep=False, runs=None) -> int:
             name = os.path.basename(diff)[:-5]
             if only and only not in name:
                 continue
-            scratch = tempfile.mkdtemp(prefix=f"verif-mut-{cid}-", dir="/tmp")
-            try:
-                t0 = time.time()
-                shutil.copytree("/repo/pennylane", os.path.join(scratch, "pennylane"),
-                                ignore=shutil.ignore_patterns("__pycache__"))
-                p = subprocess.run(["patch", "-p1", "-s", "-d", scratch, "-i", diff],
-                                   capture_output=True, text=True)
-                if p.returncode != 0:
-                    print(f"[sensitivity] {cid}/{name}: PATCH DOES NOT APPLY: {p.stdout}{p.stderr}")
-                    results[f"{cid}/{name}"] = "patch-failed"
-                    missed += 1
-                    continue
-                env = dict(os.environ, PYTHONPATH=scratch, VERIF_NO_EVIDENCE="1",
-                           VERIF_REPLAY_DIR=os.path.join(scratch, "replays"))
-                cmd = [PY, os.path.join(VERIF, "run.py"), cid, "--tier", "quick"]
-                if runs:
-                    cmd += ["--runs", str(runs)]
-                r = subprocess.run(cmd, env=env, capture_output=True, text=True, timeout=1800)
-                caught = r.returncode == 1 and "VIOLATION property=" in r.stdout
-                reproduces = "replay_reproduces=True" in r.stdout
-                klass = [l for l in r.stdout.splitlines() if l.startswith("violation class=")][:1]
-                results[f"{cid}/{name}"] = {"caught": caught, "replay_reproduces": reproduces,
-                                            "rc": r.returncode, "wall_s": round(time.time() - t0, 1),
-                                            "first": klass[0][:300] if klass else None}
-                print(f"[sensitivity] {cid}/{name}: caught={caught} replay={reproduces} rc={r.returncode} "
-                      f"({time.time() - t0:.0f}s) {klass[0][:200] if klass else r.stderr[-300:]}", flush=True)
-                if not caught:
-                    missed += 1
-            finally:
-                if not keep:
-                    shutil.rmtree(scratch, ignore_errors=True)
+            res = try_diff(cid, diff, runs=runs, keep=keep)
+            results[f"{cid}/{name}"] = res
+            print(f"[sensitivity] {cid}/{name}: caught={res['caught']} replay={res.get('replay_reproduces')} "
+                  f"rc={res.get('rc')} ({res.get('wall_s')}s) {(res.get('first') or res.get('stderr_tail') or res.get('detail') or '')[:200]}",
+                  flush=True)
+            if not res["caught"]:
+                missed += 1
     path = os.path.join(VERIF, "selftest_sensitivity.json")
     old = {}
     if os.path.exists(path):
